@@ -163,8 +163,9 @@ pub fn eval_input(i: &Input, obs: &mut Obs) -> Result<(), Fail> {
         n += 1;
         ensure!(n <= cap_steps, "does-not-terminate", "encode_streaming({}) yielded more than {} bytes", hex_short(p, 40), cap_steps);
     }
-    for _ in 0..3 {
-        let _ = it.next();
+    for k in 0..(if p.len() % 5 == 0 { 300 } else { 3 }) {
+        let x = it.next();
+        ensure!(x.is_none(), "encoder-resumes", "encode_streaming returned {:?} on call {} after its end", x, k + 1);
     }
     let long = stream.len() >= 256;
     if long {
@@ -259,5 +260,39 @@ impl Prop for C05 {
             });
         }
         Ok(Input { ops, cap, m: kv.get_b("m")?, enc_cap })
+    }
+
+    fn exhaustive_desc(tier: Tier) -> String {
+        let l = tier.pick(4, 5);
+        format!("every call history of length 1..={} over 15 operations (push of each of the 13 tokens of C02's alphabet, finalize(), reset()): {} histories, buffers Vec / ArrayBuf<0> / ArrayBuf<4> / ArrayBuf<64>", l, (1..=l).map(|k| 15u64.pow(k as u32)).sum::<u64>())
+    }
+
+    fn exhaustive(tier: Tier, shard: usize, nshards: usize, f: &mut dyn FnMut(&Input) -> bool) {
+        let l = tier.pick(4, 5);
+        let alpha = small_alphabet();
+        let mut g = 0u64;
+        for len in 1..=l {
+            let count = 15u64.pow(len as u32);
+            for k in 0..count {
+                if g % nshards as u64 == shard as u64 {
+                    let mut idx = k;
+                    let mut ops = Vec::with_capacity(len);
+                    for _ in 0..len {
+                        let o = (idx % 15) as usize;
+                        idx /= 15;
+                        ops.push(match o {
+                            13 => Op::Finalize,
+                            14 => Op::Reset,
+                            t => Op::Push(lower_stream(std::slice::from_ref(&alpha[t]))),
+                        });
+                    }
+                    let cap = [None, Some(0usize), Some(4), Some(64)][(g % 4) as usize];
+                    if !f(&Input { ops, cap, m: vec![0xa5, 0x00], enc_cap: 16 }) {
+                        return;
+                    }
+                }
+                g += 1;
+            }
+        }
     }
 }
